@@ -298,6 +298,80 @@ def d8(ctx, prog):
     return n
 
 
+def d10(ctx, prog):
+    """the three metrics as rational functions of the per-class counts / sums / sums of squares (sa.ratfun, three symbolic non-empty
+    classes): each `_compute_metric` must return *the same function* as its definition -
+      ANOVA  F = [sum_k c_k (m_k - m)^2 / (K - 1)] / [sum_k (q_k - s_k^2 / c_k) / (N - K)]
+      NICV     = [sum_k (c_k / N) (m_k - m)^2] / [sum_k q_k / N - m^2]
+      SNR      = [sum_k (m_k - m)^2 / P] / [sum_k (q_k / c_k - m_k^2) / P]            m_k = s_k / c_k, m = sum_k s_k / N, N = sum_k c_k
+    compared by cross-multiplication of polynomial normal forms (no numeric evaluation).  Decides the formula for every input."""
+    from .. import ratfun
+    from ..ratfun import Poly, RF
+    K = 3
+    c = [Poly.sym(f'c{k}') for k in range(K)]
+    s_ = [Poly.sym(f's{k}') for k in range(K)]
+    q = [Poly.sym(f'q{k}') for k in range(K)]
+    one = Poly.const(1)
+    N = c[0] + c[1] + c[2]
+    S = s_[0] + s_[1] + s_[2]
+
+    def rf(num, den=one):
+        return RF(num, den, {})
+
+    def add_all(xs):
+        out = xs[0]
+        for x in xs[1:]:
+            out = out.add(x)
+        return out
+    mk = [rf(s_[k], c[k]) for k in range(K)]
+    m = rf(S, N)
+    dev2 = [mk[k].add(m, -1).mul(mk[k].add(m, -1)) for k in range(K)]
+    between = add_all([rf(c[k]).mul(dev2[k]) for k in range(K)])
+    within = add_all([rf(q[k]).add(rf(s_[k] * s_[k], c[k]), -1) for k in range(K)])
+    anova = between.mul(rf(Poly.const(K - 1)), -1).mul(within.mul(rf(N - Poly.const(K)), -1), -1)
+    nicv = add_all([rf(c[k], N).mul(dev2[k]) for k in range(K)]).mul(add_all([rf(q[k], N) for k in range(K)]).add(m.mul(m), -1), -1)
+    P = rf(Poly.sym('P'))
+    snr = add_all(dev2).mul(P, -1).mul(add_all([rf(q[k], c[k]).add(mk[k].mul(mk[k]), -1) for k in range(K)]).mul(P, -1), -1)
+    refs = {'ANOVADistinguisherMixin': (anova, 'the one-way F statistic (between-class mean square with K-1 over within-class mean square with N-K degrees of freedom)'),
+            'NICVDistinguisherMixin': (nicv, 'variance of the class means weighted by class size over the total variance'),
+            'SNRDistinguisherMixin': (snr, 'mean squared deviation of the class means from the overall mean over the mean within-class variance (classes weighted equally)')}
+    base = prog.need_class(PART, 'PartitionedDistinguisherMixin')
+    n = 0
+    for ci in prog.subclasses_of(base, strict=True):
+        f = ci.methods.get('_compute_metric')
+        if f is None or ci.name not in refs:
+            continue
+        ps = [p_ for p_ in f.params if p_ != 'self']
+        key = f'{f.key}::formula'
+        if len(ps) != 5:
+            ctx.undecided('C04-D10', key, 'metric signature changed', f.where())
+            continue
+        n += 1
+        ref, what = refs[ci.name]
+        ev = ratfun.VecEval({ps[4]: rf(N), '$masks': {ps[0]}, f'{ps[0]}.shape[0]': 'P', f'{ps[0]}.size': 'P'},
+                            {ps[1]: [f'c{k}' for k in range(K)], ps[2]: [f's{k}' for k in range(K)], ps[3]: [f'q{k}' for k in range(K)]}, K)
+        try:
+            from .. import inline as _inl
+            outs = ratfun.run_vector_function(_inl.inlined(prog, f).node, ev)
+            if not outs:
+                raise ratfun.Unknown('no returned expression')
+            bad = None
+            for v, st in outs:
+                if isinstance(v, list):
+                    raise ratfun.Unknown('the class axis is not reduced in the returned value')
+                if v.roots:
+                    raise ratfun.Unknown('square roots in the metric')
+                if not (v.num * ref.den == ref.num * v.den):
+                    bad = st
+            if bad is not None:
+                ctx.fail('C04-D10', key, f'what {f.qualname} returns is not {what}: with three non-empty classes it is another rational function of the class counts, sums and sums of squares', f.where(bad))
+            else:
+                ctx.ok('C04-D10', key, f'the returned value is {what}, as a rational function of (c_k, s_k, q_k) for three symbolic classes (normal forms cross-multiplied)', f.where())
+        except ratfun.Unknown as e:
+            ctx.undecided('C04-D10', key, f'formula not derivable: {e}', f.where())
+    return n
+
+
 def run(ctx, prog):
     from .. import universe as _uni0
     _uni0.inline_base_entry_points(ctx, prog)
@@ -347,6 +421,8 @@ def run(ctx, prog):
                 ctx.ok('C04-D9', f'{f_.key}::precision `{prec_}`', 'no arithmetic on raw inputs')
             _emit(ctx, 'C04-D9', res_)
     ctx.floor('partitioned accumulation kernels under precision discipline', n9, 2)
+    ctx.rule('C04-D10', 'rational-function normal form: each metric is its definition (F statistic / weighted variance of class means over total variance / equal-weight signal over mean noise) as a function of the class counts, sums and sums of squares')
+    ctx.floor('metrics compared with their definition', d10(ctx, prog), 3)
     n3 = infnan_rule(ctx, prog, 'C04-D3', {PART})
     ctx.rule('C04-D5', 'extent homogeneity: the size of the declared class set (which counts empty classes) enters each metric with total exponent 0')
     ctx.floor('partitioned classes whose compute closure is checked for purity', d2_purity(ctx, prog), 6)
